@@ -195,7 +195,7 @@ H(P, "c16", "c16_u8_add_saturates", ("bare",), "every u8^3 x every i32^3 delta <
 # ---------------------------------------------------------------- C04
 P = "C04"
 BOUNDS[P] = "every triangle (all vertex orders, both windings, flat tops/bottoms, slivers down to the lattice step) whose vertices lie on the half-pixel lattice of a 2x2-pixel grid: 5^6 coordinate tuples decided at once per case; shared edge: all 5^8 quadruples; cfg bare (quick), libm/std (thorough)"
-OUTSIDE[P] = ["triangles larger than 2 px (3x3 grid did not finish in 40 min)", "vertices off the half-pixel lattice (arbitrary floats): the 0.001-px tolerance band collapses to 'exactly on an edge' on the lattice", "partially off-grid triangles (negative coordinates)", "slivers thinner than the lattice step"]
+OUTSIDE[P] = ["triangles larger than 2 px in the quick tier; larger than 3 px in the thorough tier (3x3 grid, split 49 ways on the first vertex)", "vertices off the half-pixel lattice (arbitrary floats): the 0.001-px tolerance band collapses to 'exactly on an edge' on the lattice", "partially off-grid triangles (negative coordinates)", "slivers thinner than the lattice step"]
 LEVEL_TEXT[P] = ("Bounded model checking of the real tri_fill/scan/ScanlineIter over every lattice triangle of a 2x2-pixel grid at once, against exact integer edge functions: "
                  "strictly-inside centres exactly one fragment, strictly-outside none, on-edge at most one; rows strictly increasing; xs.len == fragment count; two triangles sharing an edge never double-draw or leave a gap.")
 for y in range(5):
@@ -204,6 +204,10 @@ for y in range(5):
 H(P, "c04", "c04_degenerate_g2", ("bare",), "all zero-area lattice triangles of the 2x2 grid", "no panic, rows increasing, in grid, no pixel twice", unwind=6, est=200, cap=900)
 for y in range(5):
     H(P, "c04", f"c04_shared_edge_g2_y{y}", ("bare",), f"all pairs of lattice triangles on opposite sides of a shared edge pq, p.y = {y}/2", "no centre drawn twice in total; strictly inside either => exactly once; on the open shared edge => exactly once", unwind=6, est=1500, cap=2700, tiers=("thorough",))
+
+for y in range(7):
+    for x in range(7):
+        H("C04", "c04", f"c04_cover_g3_{x}{y}", ("bare",), f"all lattice triangles of the 3x3 grid with first vertex ({x}/2, {y}/2) (7^4 tuples, area != 0)", "coverage == integer edge functions; rows increasing; in grid; xs.len == #fragments", unwind=8, est=900, cap=2700, tiers=("thorough",))
 
 # ---------------------------------------------------------------- C05
 P = "C05"
@@ -301,20 +305,23 @@ for n, dom in [("c13_p6_0x3", "'P6 0 3 255\\n'"), ("c13_p6_2x0", "'P6 2 0 255\\n
     H(P, "c13", n, ("bare",), dom + " ++ <= 4 arbitrary bytes", "Ok with the header's dims and no pixels; no panic", unwind=24, est=60)
 for n, dom in [("c13_p6_overflowing_dims", "'P6 65536 65536 255'"), ("c13_p6_huge_width", "'P6 4294967295 2 255'"), ("c13_p5_large", "'P5 40000 40000 255'"), ("c13_p6_dim_too_big_for_u32", "'P6 4294967296 1 255'")]:
     H(P, "c13", n, ("bare",), dom + " ++ <= 4 arbitrary bytes", "Err, never a panic", unwind=40, est=60)
-H(P, "c13", "c13_bad_magic_total", ("bare",), "any 2-byte magic other than P2..P6 ++ 3 arbitrary bytes, truncated anywhere", "Err(Unsupported(magic)) / Err(UnexpectedEnd); no panic", unwind=24, est=60)
-H(P, "c13", "c13_roundtrip_2x2_view", ("std",), "2x2 sub-view at any offset of a 3x3 image with arbitrary pixel bytes", "read_pnm(write_ppm(view)) == view", unwind=40, est=600, cap=1500)
+H(P, "c13", "c13_garbage_after_magic", ("bare",), "12 concrete malformed / unsupported / truncated files and 2 concrete text-format files (test-like: concrete execution by the symbolic engine)", "unsupported magic => Err(Unsupported); truncated => Err(UnexpectedEnd); malformed numbers => Err; P2/P3 text samples decode", unwind=24, est=300, cap=900)
+H(P, "c13", "c13_write_ppm_view", ("std",), "2x2 sub-view at any offset of a 3x3 image with arbitrary pixel bytes", "write_ppm emits 'P6 2 2 255\\n' + the view's pixels row-major (the decode harnesses cover reading exactly that spelling back)", unwind=24, est=600, cap=1500)
+H(P, "c13", "c13_roundtrip_2x2_view", ("std",), "2x2 sub-view at any offset of a 3x3 image with arbitrary pixel bytes", "read_pnm(write_ppm(view)) == view", unwind=40, est=2000, cap=2700, tiers=("thorough",))
 
 # ---------------------------------------------------------------- C17
 P = "C17"
-BOUNDS[P] = "evaluators: integer control points in [-2,2]^4 (f32, Vec2, Point2), t in {1/4,1/2,3/4} (exact lattice); ends/totality: every float t and control point incl. NaN; spline segments: n = 1..3 segments, every float t in (0,1), symbolic float control points |p| <= 100; joins: n = 1..4, integer control points in [-4,4]"
+BOUNDS[P] = "evaluators: integer control points in [-2,2]^4 (f32, Vec2, Point2), t in {1/4,1/2,3/4} (exact lattice); ends/totality: every float t and control point incl. NaN; spline segments: n = 1,2,3,4,8 segments on collinear control points for every float t; n = 2,4 on integer control points at t = j/(4n); joins: n = 1..4, integer control points in [-4,4]"
 OUTSIDE[P] = ["agreement of eval and fast_eval on arbitrary floats (tolerance proof)", "approximate(): subdivision recursion with symbolic halt predicate (Vec pushes in a recursive function)", "segment counts above 4; 3-D and colour instances", "BezierSpline::tangent scaling by the segment count"]
 LEVEL_TEXT[P] = ("Bounded model checking: evaluators and tangent against the integer Bernstein form on an exact lattice, end-point and NaN behaviour for all floats, "
                  "spline segment selection bit-identical to the per-segment cubic for every float parameter, join interpolation.")
 H(P, "c17", "c17_evaluators_lattice_f32", ("bare",), "integer control points [-2,2]^4, t = k/4", "eval*64 == fast_eval*64 == Bernstein integer form; tangent*16 == derivative; inside control bounds", est=120, cap=900)
 H(P, "c17", "c17_evaluators_lattice_2d", ("bare",), "Vec2 and Point2 instances, same lattice", "componentwise Bernstein form, eval and fast_eval", unwind=4, est=300, cap=900)
 H(P, "c17", "c17_ends_and_totality", ("bare",), "every float t, every 4 float control points (NaN/inf incl.)", "t<=0 => p0, t>=1 => p3 bitwise (eval, fast_eval, spline); tangent clamps; no panic", unwind=6, est=60)
-for n, s, np in [(1, 0, 4), (2, 0, 7), (2, 1, 7), (3, 0, 10), (3, 1, 10), (3, 2, 10)]:
-    H(P, "c17", f"c17_segment_n{n}_s{s}", ("bare",), f"{n}-segment spline, every float t in (0,1) selecting segment {s}, {np} symbolic float control points", "eval(t) bit-identical to CubicBezier(pts[3s..3s+4]).fast_eval(t*n - s)", unwind=12, est=120, cap=900)
+for n in (1, 2, 3, 4, 8):
+    H(P, "c17", f"c17_segment_linear_n{n}", ("bare",), f"{n}-segment spline with control points on a line, every float t in [0,1]", "eval(t) == 3*n*t within 1e-3: right segment and re-based local parameter for every t", unwind=28 if n == 8 else 16, est=120, cap=900)
+for n in (2, 4):
+    H(P, "c17", f"c17_segment_lattice_n{n}", ("bare",), f"{n}-segment spline, integer control points in [-2,2], t = j/{4*n}", "eval(t)*64 == integer Bernstein form of the segment containing t", unwind=16, est=200, cap=900)
 for n in (1, 2, 3, 4):
     H(P, "c17", f"c17_joins_n{n}", ("bare",), f"{n}-segment spline, integer control points in [-4,4], t = k/{n}", "eval(k/n) == control point 3k (1e-3); eval(0), eval(1) are the end points", unwind=16, est=120, cap=900)
 H(P, "c17", "c17_new_rejects_bad_length", ("bare",), "every length <= 12 that is not 3n+1 (n>=1)", "BezierSpline::new panics", kind="should_panic", unwind=16, est=30)
@@ -328,7 +335,8 @@ LEVEL_TEXT[P] = ("Bounded model checking of the unit conversions (round trips wi
                  "Wrapping is decided by the SMT engine; the trigonometric half of the property is undecided.")
 H(P, "c18", "c18_unit_round_trips", ("bare",), "every finite a with |a| in [1e-6, 1e6]", "rads exact; degs/turns round trips within 4 ulp; FULL/STRAIGHT/RIGHT consistent", est=300, cap=900)
 H(P, "c18", "c18_cross_conversion", ("bare",), "turns = k/64, |k| <= 4096", "turns(x) and degs(360x) within 4 ulp in radians and back", est=120, cap=900)
-H(P, "c18", "c18_ops_on_magnitude", ("bare",), "all non-NaN float triples", "+,-,neg,*,/,min,max,clamp, Affine, Linear act on the radian value bitwise", est=60)
+H(P, "c18", "c18_ops_on_magnitude", ("bare",), "all non-NaN float triples", "+,-,neg,min,max,clamp, Affine, Linear::neg/zero act on the radian value bitwise", est=60)
+H(P, "c18", "c18_scaling", ("bare",), "every finite x with |x| in [1e-30,1e30], scalar +-2^k, |k| <= 3", "angle*s, angle/s, Linear::mul scale the radian value exactly (exponent shift)", est=30)
 
 
 def _float_props_external(prop):
